@@ -254,3 +254,63 @@ def run_assign_all_paths(prog, tier, repo):
                           f'or branch on that path (for instance a mismatching `else if` chain) is accepted and reaches the '
                           f'back ends')
     return [res]
+
+
+# ---------------------------------------------------------------------------------------------------------------------
+# BINDER-WRITE (C05 / C03): LocalTypingContext::get_captured unwraps the type recorded for the definition location of every
+# variable a lambda captures. Pattern identifiers are such definitions (the scope analysis registers each of them), so the
+# checker must record a type for an identifier pattern on every path on which it produces the typed pattern - also on the
+# error-recovery paths that type every binding as `any`.
+
+def run_binder_write(prog, tier, repo):
+    from ..cfg import cfg_of
+    from ..dataflow import operand_root
+    res = RuleResult('BINDER-WRITE', 'C05: every typed identifier pattern the checker produces is preceded, on every path, by '
+                     'recording a type for that identifier\'s location (get_captured unwraps that entry for captured variables)')
+    n = 0
+    for b in prog.bodies.values():
+        if b.crate != 'samlang_checker':
+            continue
+        cfg = None
+        nf = 0
+        for bi, bl in enumerate(b.blocks):
+            if bl.cleanup:
+                continue
+            for si, st in enumerate(bl.stmts):
+                if st[0] != 'a' or st[2][0] != 'agg':
+                    continue
+                ak = st[2][1]
+                if ak[0] != 'adt' or not ak[1].endswith('pattern::MatchingPattern') or ak[3] != 'Id' or not st[2][2]:
+                    continue
+                ty = b.locals[st[1].local] if not st[1].proj else None
+                # only the typed output pattern (payload Arc<Type>), not parser-side `()` patterns
+                if ty is not None and ty.args and ty.args[0].s == '()':
+                    continue
+                n += 1
+                nf += 1
+                cfg = cfg or cfg_of(b)
+                idr, idp = operand_root(b, st[2][2][0])
+                idp = tuple((e[0], e[1]) + tuple(e[2:4]) for e in idp)
+                found = False
+                for bj, bl2 in enumerate(b.blocks):
+                    t = bl2.term
+                    if bl2.cleanup or t[0] != 'call' or len(t[3]) < 2:
+                        continue
+                    nm = callee(t)[1] or ''
+                    if not nm.endswith('LocalTypingContext::write') and not (nm.split('::')[-1] == 'write' and 'typing_context' in nm):
+                        continue
+                    lr, lp = operand_root(b, t[3][1])
+                    lp = tuple((e[0], e[1]) + tuple(e[2:4]) for e in lp)
+                    if lr != idr or lp[:len(idp)] != idp:
+                        continue
+                    if bj != bi and cfg.nodes_dominate([bj], bi):
+                        found = True
+                key = f'{b.id}:id-pattern#{nf}'
+                if found:
+                    res.ok(key, b.loc(st[3]), 'typed Id pattern dominated by LocalTypingContext::write for the same identifier')
+                else:
+                    res.violation(key, b.loc(st[3]), f'{b.name} produces a typed identifier pattern without recording a type for the '
+                                  f'identifier\'s location on every path before it: a lambda that captures this binding makes '
+                                  f'LocalTypingContext::get_captured unwrap a missing entry and the checker panics')
+    res.floor('typed identifier patterns', n, 2)
+    return [res]
